@@ -403,6 +403,7 @@ def execute(sim, plan, _scratch=None):
                 pass
 
     host = []
+    host_has_stacked = []
     chain = set()  # stacked branches whose fallback is the stacked branch itself
     unstacked_urls = set()
 
@@ -462,8 +463,18 @@ def execute(sim, plan, _scratch=None):
                 exists = True
             except errors.NotBranchError:
                 exists = False
+            if exists and how == "init_push" and host_has_stacked and not Branch.open(target).repository._fallback_repositories:
+                # `init` does not apply the stacking policy to the branch (create_branch_convenience never calls
+                # configure_branch), so this branch is an UNSTACKED branch in a shared repository that already holds
+                # the partial history of stacked siblings; push then finds its tip "present" and copies nothing.
+                # That is the shared-repository-with-stacked-branches hazard, not a statement of C08 (whose
+                # subject is stacked branches and pushes to stacked locations): observed, not judged.
+                sim.probe("policy_init_push_unstacked_in_mixed_shared_repo_not_judged")
+                storesim.clear_caches()
+                continue
             if exists:
                 was_stacked = judge_any(target, "after-policy-" + how)
+                host_has_stacked[0:] = [True] if was_stacked else host_has_stacked
                 if refused is None:
                     tip = storesim.open_branch(target).last_revision().decode()
                     if tip != rev:
